@@ -177,3 +177,32 @@ vproof! {
         }
     }
 }
+
+//@ id: c02_binomial_binv_state
+//@ prop: C02
+//@ tier: quick
+//@ cap: 900
+//@ funcs: Binomial::new (BINV state: r = q^n with q = 1 - min(p, 1-p), n stored)
+//@ bounds: every n (full u64, in particular n >= 2^31) and every p for which BINV is selected
+//@ assumes: f64::powf / powi replaced by a free logging stub: the harness checks which power is taken
+vproof_free! {
+    fn c02_binomial_binv_state() {
+        let n: u64 = kani::any();
+        let p: f64 = kani::any();
+        let d = match Binomial::new(n, p) { Ok(d) => d, Err(_) => return };
+        if let Method::Binv(b, _) = d.method {
+            let pp = if p > 0.5 { 1.0 - p } else { p };
+            let (base, ex, g): (f64, f64, f64) = if native() {
+                (1.0 - pp, n as f64, (1.0 - pp).powf(n as f64))
+            } else {
+                vassert!(flog_n() == 1, "Binomial::new(BINV): expected exactly one power");
+                flog_get(0)
+            };
+            vassert!(base == 1.0 - pp, "Binomial::new(BINV): r is not a power of q = 1 - min(p, 1-p)");
+            vassert!(ex == n as f64, "Binomial::new(BINV): r = q^e with e != n");
+            vassert!(biteq64(b.r, g) && b.n == n, "Binomial::new(BINV): r or n not stored");
+            kani::cover!(n >= (1u64 << 32), "huge n with BINV");
+        }
+        kani::cover!(matches!(d.method, Method::Binv(_, _)), "BINV selected");
+    }
+}
